@@ -324,6 +324,13 @@ func checkErrorPosition(err *pongo2.Error, src string, compile bool) string {
 	return ""
 }
 
+func fkeyText(k string) string {
+	if k == "" {
+		return ""
+	}
+	return " with files " + strconv.Quote(k)
+}
+
 func firstN(s string, n int) string {
 	if len(s) > n {
 		return s[:n]
@@ -346,20 +353,37 @@ func cmdC16Errors(args []string) {
 	nerr := 0
 	readVectors(func(raw json.RawMessage) {
 		var v struct {
-			Toks []string `json:"toks"`
+			Toks  []string        `json:"toks"`
+			Files json.RawMessage `json:"files"`
 		}
 		if err := json.Unmarshal(raw, &v); err != nil {
 			fatal("bad vector", err)
 		}
 		rep.Vectors++
 		src := tokensToSource(v.Toks)
-		if seen[src] || strings.Contains(src, "/self") {
+		// the other templates of the program (an empty TLA+ function prints as [])
+		files := map[string]string{}
+		for k, t := range apiFiles {
+			files[k] = t
+		}
+		fkey := ""
+		if t := strings.TrimSpace(string(v.Files)); strings.HasPrefix(t, "{") {
+			var fm map[string][]string
+			if err := json.Unmarshal(v.Files, &fm); err != nil {
+				fatal("bad files", err)
+			}
+			for k, toks := range fm {
+				files["/"+k] = tokensToSource(toks)
+				fkey += k + "=" + files["/"+k] + ";"
+			}
+		}
+		if seen[src+fkey] || strings.Contains(src, "/self") {
 			return
 		}
-		seen[src] = true
+		seen[src+fkey] = true
 		rep.Checked++
 		run := func(s string) (cerr, eerr *pongo2.Error) {
-			set := pongo2.NewSet("c16", newMemLoader("c16", apiFiles))
+			set := pongo2.NewSet("c16", newMemLoader("c16", files))
 			var tpl *pongo2.Template
 			o := protect(func() (string, error) {
 				var e error
@@ -383,7 +407,7 @@ func cmdC16Errors(args []string) {
 		}
 		cerr, eerr := run(src)
 		key := fmt.Sprintf("diagnostics: template %q", src)
-		det := map[string]interface{}{"src": src, "cmd": "c16-errors"}
+		det := map[string]interface{}{"src": src, "vector": raw, "cmd": "c16-errors"}
 		for _, pe := range []struct {
 			e       *pongo2.Error
 			compile bool
@@ -392,11 +416,20 @@ func cmdC16Errors(args []string) {
 				continue
 			}
 			nerr++
+			named := src
 			if pe.e.Filename != "<string>" {
-				continue // the error belongs to another template (include, extends ...): its text is not src
+				// the error belongs to another template of the program (include, extends, import): the position is one in that text
+				t, ok := files[pe.e.Filename]
+				if !ok {
+					if pe.e.Line > 0 {
+						rep.viol(key+fmt.Sprintf(": the error carries a position (%d:%d) but names %q, which is none of the program's templates (%s)", pe.e.Line, pe.e.Column, pe.e.Filename, firstLine(pe.e.Error())), det)
+					}
+					continue
+				}
+				named = t
 			}
-			if p := checkErrorPosition(pe.e, src, pe.compile); p != "" {
-				rep.viol(key+": "+p+" ("+firstLine(pe.e.Error())+")", det)
+			if p := checkErrorPosition(pe.e, named, pe.compile); p != "" {
+				rep.viol(key+fkeyText(fkey)+": "+p+" in "+pe.e.Filename+" ("+firstLine(pe.e.Error())+")", det)
 			}
 		}
 		// shift: the same template behind a prefix of 2 lines and 2 columns
